@@ -2,7 +2,10 @@ package rules
 
 import (
 	"fmt"
+	"go/types"
 	"sort"
+
+	"golang.org/x/tools/go/ssa"
 
 	"redactverif/engine"
 	"redactverif/report"
@@ -72,6 +75,7 @@ func init() {
 	register("C03.a", ruleC03a)
 	register("C13.a", ruleC13a)
 	register("C13.c", ruleC13c)
+	register("C13.b", ruleC13b)
 }
 
 // ruleC01a: the marker/mode protocol of buffer.Buffer, inductively over all
@@ -210,4 +214,74 @@ func ruleC13c(c *Ctx) []*report.Result {
 		}
 	}
 	return []*report.Result{r}
+}
+
+// ruleC13b: ownership transfer. A function that hands the buffer's bytes to
+// its caller without copying (Take*) must drop its own reference to the
+// backing array, otherwise later writes modify the result already returned.
+func ruleC13b(c *Ctx) []*report.Result {
+	a := c.ABuf()
+	r := report.NewResult("C13.b", "every exported pointer-receiver method that hands out the buffer's bytes without copying (the slice itself, or the slice header reinterpreted as a string) assigns nil to the buffer field on every path before returning, for every entry configuration: the result never shares storage with later writes", 20)
+	found := map[string]bool{}
+	for _, root := range a.Roots {
+		if root.Value || root.Sum == nil {
+			continue
+		}
+		if !handsOutWithoutCopy(root.Fn) {
+			continue
+		}
+		found[root.Fn.Name()] = true
+		for _, o := range root.Sum.SortedOutcomes() {
+			d, _ := constStr(o.Heap.Get("in0", "#dropped"))
+			if d == "T" {
+				r.Ok(fmt.Sprintf("%s [%s]: backing array released", root.Fn.Name(), root.Entry))
+			} else {
+				r.Fail(shortFn(root.Fn.String())+" / keeps the backing array", c.P.Pos(root.Fn.Pos()), "the bytes handed to the caller stay referenced by the buffer (buf is not set to nil): a later write overwrites the result already returned", nil, "entry: "+root.Entry.String())
+			}
+		}
+	}
+	if len(found) < 2 {
+		r.Undecide(fmt.Sprintf("found %d zero-copy hand-out methods (floor 2: the two Take*)", len(found)))
+	}
+	return []*report.Result{r}
+}
+
+// handsOutWithoutCopy: fn returns a value derived from the receiver's buf
+// slice by ChangeType only, or converts the address of buf to unsafe.Pointer.
+func handsOutWithoutCopy(fn *ssa.Function) bool {
+	isBufLoad := func(v ssa.Value) bool {
+		u, ok := v.(*ssa.UnOp)
+		if !ok {
+			return false
+		}
+		fa, ok := u.X.(*ssa.FieldAddr)
+		return ok && fieldName(fa) == "buf" && fa.X == ssa.Value(fn.Params[0])
+	}
+	for _, b := range fn.Blocks {
+		for _, ins := range b.Instrs {
+			switch x := ins.(type) {
+			case *ssa.Return:
+				for _, res := range x.Results {
+					v := res
+					for {
+						if ct, ok := v.(*ssa.ChangeType); ok {
+							v = ct.X
+							continue
+						}
+						break
+					}
+					if isBufLoad(v) {
+						return true
+					}
+				}
+			case *ssa.Convert:
+				if fa, ok := x.X.(*ssa.FieldAddr); ok && fieldName(fa) == "buf" && fa.X == ssa.Value(fn.Params[0]) {
+					if b, ok := x.Type().Underlying().(*types.Basic); ok && b.Kind() == types.UnsafePointer {
+						return true
+					}
+				}
+			}
+		}
+	}
+	return false
 }
